@@ -617,6 +617,8 @@ package loadbalancer
 // (mon mode: both unknown at each acquisition, entries are connections) the sweep must be ONE critical section:
 // what it leaves in the list is judged against the list as found when the lock was taken, so a sweep that
 // filters a snapshot outside the lock and writes it back later (losing concurrent Get/Put) fails.
+// Lock order of the pool: the map lock comes before any per-backend lock (Shutdown holds both in that order).
+//@ lockorder WebSocketPool.mu < connPool.mu
 //@ monitor connPool.mu c
 //@   guards idle, active
 //@   rely entries_are_connections: idleOK(c)
@@ -702,8 +704,10 @@ package loadbalancer
 //@ ghost var lastDialTimeout Int
 //@ ghost var lastHeaderTimeout Int
 //@ ghost var lastIdleTimeout Int
+// (C01: the proxy of a new backend is the stock single-host reverse proxy - its request rewriting is the
+// library's; Helios installs a transport and an error handler only.)
 //@ func (*LoadBalancer).AddBackend
-//@   props C11 C05 C03 C12
+//@   props C11 C05 C03 C12 C01
 //@   requires adminOK(lb) && namesUnique(lb) && poolNonNil(lb) && sLen(lb.strategy) < 2147483647
 //@   requires 0 <= lb.config.Server.Timeouts.BackendDial && lb.config.Server.Timeouts.BackendDial < 8589934592 && 0 <= lb.config.Server.Timeouts.BackendRead
 //@             && lb.config.Server.Timeouts.BackendRead < 8589934592 && 0 <= lb.config.Server.Timeouts.BackendIdle && lb.config.Server.Timeouts.BackendIdle < 8589934592
@@ -713,6 +717,7 @@ package loadbalancer
 //@   ensures backend_timeouts_positive: result == nil ==> lastDialTimeout > 0 && lastHeaderTimeout > 0 && lastIdleTimeout > 0
 //@   ensures added_is_listed_and_eligible: result == nil ==> exists b *Backend :: inPool(lb, b) && fresh(b) && b.Name == backendCfg.Name && b.IsHealthy
 //@             && b.Weight == max(1, backendCfg.Weight) && b.ActiveConnections == 0 && b.ReverseProxy != nil
+//@             && b.ReverseProxy.Director == stockDirector(ptr(b.ReverseProxy)) && b.ReverseProxy.Rewrite == nil && b.ReverseProxy.ModifyResponse == nil
 //@   ensures existing_are_kept: forall b *Backend :: old(inPool(lb, b)) ==> inPool(lb, b)
 //@   ensures only_the_new_one_is_new: forall b *Backend :: inPool(lb, b) && !fresh(b) ==> old(inPool(lb, b))
 //@   ensures failed_add_changes_nothing: result != nil ==> forall b *Backend :: inPool(lb, b) <==> old(inPool(lb, b))
@@ -853,12 +858,18 @@ package loadbalancer
 //@   ensures pool_emptied: len(p.pools) == 0 && p.pools != nil
 //@   modifies p.pools, key:map[string]*loadbalancer.connPool, connPool.idle, net.Conn.closed
 
+// Probes in flight are bounded by the balancer context: Stop must cancel it BEFORE it waits for them (waiting
+// first lets a hung probe run into its own timeout and Stop overrun the shutdown budget).
+//@ ghost var cancelledWhenWaiting Bool
 //@ func (*LoadBalancer).Stop
 //@   props C19 C03
 //@   requires lb.cancel != nil && (lb.wsPool != nil ==> unlocked(lb.wsPool.mu) && poolsOK(lb.wsPool) && noConnPoolLocks() && allIdleOK())
+//@   ghost entry :: cancelledWhenWaiting := false
+//@   ghost before Wait :: cancelledWhenWaiting := lb.ctx.cancelled
 //@   ensures context_cancelled_before_return: lb.ctx.cancelled
+//@   ensures probes_are_cancelled_before_they_are_awaited: cancelledWhenWaiting
 //@   ensures pool_emptied: lb.wsPool != nil ==> len(lb.wsPool.pools) == 0
-//@   modifies lb.ctx.cancelled, WebSocketPool.pools, key:map[string]*loadbalancer.connPool, connPool.idle, net.Conn.closed
+//@   modifies lb.ctx.cancelled, WebSocketPool.pools, key:map[string]*loadbalancer.connPool, connPool.idle, net.Conn.closed, cancelledWhenWaiting
 
 // a probe routine entered after cancellation sends nothing and touches nothing
 //@ func (*LoadBalancer).checkBackendHealth
